@@ -4,6 +4,7 @@ import (
 	"bytes"
 	"fmt"
 
+	"github.com/fxamacker/cbor/v2"
 	cose "github.com/veraison/go-cose"
 
 	"verif/refcbor"
@@ -117,7 +118,7 @@ func c12Producer(r *Run, t *tape.Tape) {
 		case 2:
 			p.PreimageContentType, ctClass = "application/"+genText(t, 6), "ct-text"
 		case 3:
-			bad := []any{-5, []byte{1}, true, 1.5, int64(-1)}
+			bad := []any{-5, []byte{1}, true, 1.5, int64(-1), cbor.SimpleValue(16), cbor.SimpleValue(255), float32(2), []any{}, cbor.Tag{Number: 1, Content: uint64(3)}}
 			p.PreimageContentType, ctClass = bad[t.Choose(len(bad), "c12.ct.bad")], "ct-wrongtype"
 		}
 		if t.Bool(1, 2, "c12.loc") {
@@ -269,7 +270,7 @@ func c12Verifier(r *Run, t *tape.Tape) {
 			broken = "258-absent"
 		case 1:
 			layer.Prot = removeLabel(layer.Prot, 258)
-			layer.Prot = append(layer.Prot, KV{refcbor.Int(258), []*refcbor.Item{refcbor.Tstr("SHA-256"), refcbor.Bstr([]byte{1}), refcbor.Float64(-16), refcbor.Nil()}[t.Choose(4, "c12.v.258type")]})
+			layer.Prot = append(layer.Prot, KV{refcbor.Int(258), append([]*refcbor.Item{refcbor.Tstr("SHA-256"), refcbor.Bstr([]byte{1}), refcbor.Float64(-16), refcbor.Nil()}, oddScalars()...)[t.Choose(4+len(oddScalars()), "c12.v.258type")]})
 			broken = "258-wrong-type"
 		case 2:
 			lbl := []int64{258, 259, 260}[t.Choose(3, "c12.v.unprot.lbl")]
@@ -283,10 +284,10 @@ func c12Verifier(r *Run, t *tape.Tape) {
 			}
 			broken = "content-type-present"
 		case 4:
-			layer.Prot = append(removeLabel(layer.Prot, 259), KV{refcbor.Int(259), []*refcbor.Item{refcbor.Int(-3), refcbor.Bstr([]byte("a/b")), refcbor.Bool(true), refcbor.Array()}[t.Choose(4, "c12.v.259type")]})
+			layer.Prot = append(removeLabel(layer.Prot, 259), KV{refcbor.Int(259), append([]*refcbor.Item{refcbor.Int(-3), refcbor.Bstr([]byte("a/b")), refcbor.Bool(true), refcbor.Array()}, oddScalars()...)[t.Choose(4+len(oddScalars()), "c12.v.259type")]})
 			broken = "259-wrong-type"
 		case 5:
-			layer.Prot = append(removeLabel(layer.Prot, 260), KV{refcbor.Int(260), []*refcbor.Item{refcbor.Int(3), refcbor.Bstr([]byte("x")), refcbor.Nil()}[t.Choose(3, "c12.v.260type")]})
+			layer.Prot = append(removeLabel(layer.Prot, 260), KV{refcbor.Int(260), append([]*refcbor.Item{refcbor.Int(3), refcbor.Bstr([]byte("x")), refcbor.Nil()}, oddScalars()...)[t.Choose(3+len(oddScalars()), "c12.v.260type")]})
 			broken = "260-wrong-type"
 		case 6:
 			if refcose.HashLen(ha) > 0 {
@@ -389,4 +390,17 @@ func removeLabel(b Bucket, label int64) Bucket {
 		out = append(out, e)
 	}
 	return out
+}
+
+// oddScalars are CBOR scalars that are neither integers nor strings although a
+// decoder may hand them to Go as something integer-like (cbor.SimpleValue is
+// a uint8) or float-like.
+func oddScalars() []*refcbor.Item {
+	return []*refcbor.Item{
+		{Major: refcbor.MSimple, Arg: 16},
+		{Major: refcbor.MSimple, Arg: 255, Width: 1},
+		refcbor.Undefined(),
+		{Major: refcbor.MSimple, Arg: 0x3c00, Width: 2}, // float16 1.0
+		refcbor.Float64(3),
+	}
 }
